@@ -179,6 +179,23 @@ mod verif_standins_decode {
         let sk_bytes = bincode::serialize(&kp).unwrap();
         let back: KeyPair<N> = bincode::deserialize(&sk_bytes).expect("STANDIN KeyPair decode: honest key pair refused");
         assert!(back == kp, "STANDIN KeyPair decode: round trip changed the key pair");
+        // key pair layout: x 32 | len 8 | ys 32N | x1 48 | public key (as above)
+        assert_eq!(sk_bytes.len(), 32 + 8 + 32 * N + 48 + bytes.len(), "STANDIN KeyPair encoding: unexpected layout");
+        let pk_off = 32 + 8 + 32 * N + 48;
+        // a zero secret scalar is refused, also when the matching public elements are made consistent (identity)
+        for i in 0..N {
+            let mut b = sk_bytes.clone();
+            for k in 0..32 { b[40 + 32 * i + k] = 0; }
+            assert!(bincode::deserialize::<KeyPair<N>>(&b).is_err(), "STANDIN KeyPair decode: zero secret scalar y_{} accepted (N = {})", i, N);
+            let y1 = pk_off + 56 + 48 * i;
+            for k in 0..48 { b[y1 + k] = 0; } b[y1] = 0xc0;
+            let y2 = pk_off + 56 + 48 * N + 192 + 8 + 96 * i;
+            for k in 0..96 { b[y2 + k] = 0; } b[y2] = 0xc0;
+            assert!(bincode::deserialize::<KeyPair<N>>(&b).is_err(), "STANDIN KeyPair decode: y_{} = 0 with Y_{} = Y~_{} = identity accepted (N = {})", i, i, i, N);
+        }
+        let mut b = sk_bytes.clone();
+        for k in 0..32 { b[k] = 0; }
+        assert!(bincode::deserialize::<KeyPair<N>>(&b).is_err(), "STANDIN KeyPair decode: zero secret scalar x accepted (N = {})", N);
     }
     #[test] fn standin_key_decode_validation() { check::<1>(); check::<3>(); check::<5>(); }
 }
